@@ -700,7 +700,8 @@ def gen_history(rng, rig: Rig, segs: list[bytes], close_after: bool, max_steps=4
         outcome = outcome or "budget"
     summary = {"received": bytes(received), "outcome": outcome or "stuck", "blocked_before_close": stuck,
                "delivered_all": i >= len(segs), "closed": closed, "closed_early": closed_early, "late_close": late_close, "steps": len(evs),
-               "close_flags": close_flags or rig.snap().split(".")[0], "exc_set": rig.payload._exception is not None}
+               "close_flags": close_flags or rig.snap().split(".")[0], "exc_set": rig.payload._exception is not None,
+               "close_processed": close_flags is not None, "final_flags": rig.snap().split(".")[0]}
     return evs, obs, summary
 
 
@@ -722,7 +723,8 @@ def replay_history(rig: Rig, evs):
         elif o.startswith("e") and outcome is None:
             outcome = "err:" + o[1:]
     return obs, {"received": bytes(received), "outcome": outcome or "stuck", "close_flags": close_flags or rig.snap().split(".")[0],
-                 "exc_set": rig.payload._exception is not None}
+                 "exc_set": rig.payload._exception is not None,
+                 "close_processed": close_flags is not None, "final_flags": rig.snap().split(".")[0]}
 
 
 # =================================================================================================
@@ -735,6 +737,12 @@ def verdicts(case, summary, refst):
     if summary["outcome"] == "stuck" and summary.get("exc_set"):
         return [("stuck_with_exception", "the payload has an exception set, yet the consumer's pending read never returns: it was woken "
                  "without data (end of an HTTP chunk), the exception arrived before it ran, and it went back to wait without looking")]
+    ff = summary.get("final_flags") or ""
+    if (summary["outcome"] == "stuck" and case["cfg"]["framing"] == "E" and not summary.get("close_processed", True)
+            and len(ff) == 5 and ff[0] == "0" and ff[4] == "0"):
+        # a recorded history whose close was skipped (transport paused at that moment): the until-EOF body is
+        # still waiting for the peer's close with the transport reading and nothing pending - not a hang
+        return []
     out = []
     rec, oc = summary["received"], summary["outcome"]
     ws = case["wire_state"]
